@@ -37,6 +37,8 @@ def make_fake_class(M):
             self.m = False
             self.queried_after_raise = False
             self.raised = False
+            self.poisoned = False
+            self.queries = 0
 
         def eat_chunk(self, chunk):
             self.calls.append(chunk)
@@ -49,10 +51,16 @@ def make_fake_class(M):
 
         @property
         def complete(self):
+            self.queries += 1
+            if self.poisoned:
+                raise Boom('complete is broken')
             return self.c
 
         @property
         def format_match(self):
+            self.queries += 1
+            if self.poisoned:
+                raise Boom('format_match is broken')
             return self.m
 
     return Fake, Boom
@@ -79,7 +87,8 @@ def blank_wrapper(M, fakes, order, source, expected, errored):
     return w
 
 
-EXC_KINDS = ['ValueError', 'ImageFormatError', 'KeyError', 'custom']
+EXC_KINDS = ['ValueError', 'ImageFormatError', 'KeyError', 'custom',
+             'no-args']
 
 
 def make_exc(M, Boom, kind):
@@ -89,6 +98,8 @@ def make_exc(M, Boom, kind):
         return M.ImageFormatError('bad')
     if kind == 'KeyError':
         return KeyError('k')
+    if kind == 'no-args':
+        return RuntimeError()
     return Boom('custom')
 
 
@@ -132,6 +143,10 @@ def process_chunk_proof(fixed_expected):
         f.exc = make_exc(M, Boom, kind)
         f.c = fresh_bool('complete%d' % i)
         f.m = fresh_bool('match%d' % i)
+        # an inspector other than the expected one may even be broken in its
+        # complete / format_match: the wrapper has no business asking it
+        if f.NAME != expected and i == 0:
+            f.poisoned = pick('first_inspector_queries_raise', [False, True])
     chunk = b'some chunk'
     errored_before = set(w._errored_inspectors)
     escaped = None
@@ -373,7 +388,7 @@ def detection_decision_table():
                   r.m and n_match == 1)
 
 
-@proof(['C03'], targets=[(FI, 'InspectWrapper.__init__'),
+@proof(['C03', 'C06'], targets=[(FI, 'InspectWrapper.__init__'),
                          (FI, 'get_inspector')])
 def allowed_formats_limit_the_inspector_set():
     M = load(FI)
